@@ -646,6 +646,16 @@ type VS struct {
 	N VN     `yaml:"n,omitempty" validate:"required"` // a nested (non-pointer) section that must be configured
 }
 
+// VSP is VS with a private member declared FIRST (a mutex, a cache, a counter): its exported members carry the same
+// constraints and are validated all the same.
+type VSP struct {
+	hits int
+	A    int    `yaml:"a" validate:"gte=1,lte=9"`
+	B    string `yaml:"b" validate:"required,min=2"`
+	C    []int  `yaml:"c" validate:"max=3"`
+	N    VN     `yaml:"n,omitempty" validate:"required"`
+}
+
 type VN struct {
 	X int    `yaml:"x,omitempty"`
 	Y string `yaml:"y,omitempty"`
@@ -669,6 +679,13 @@ func TestValidateStruct(t *testing.T) {
 		if ptr {
 			typ = reflect.TypeOf(&VS{})
 		}
+		privateFirst := rapid.IntRange(0, 2).Draw(t, "privatefirst") == 0
+		if privateFirst {
+			typ = reflect.TypeOf(VSP{})
+			if ptr {
+				typ = reflect.TypeOf(&VSP{})
+			}
+		}
 		dc := kit.DrawDecoys(t) // neighbouring fields of other tag kinds must not matter
 		obj := reflect.New(reflect.StructOf(dc.Around(reflect.StructField{Name: "F", Type: typ, Tag: reflect.StructTag("prefix:" + strconv.Quote(tag))})))
 		out := kit.RunApp(app.SetComponents(obj.Interface()), app.SetConfigLoader(loader.NewRawLoader(doc)))
@@ -677,7 +694,7 @@ func TestValidateStruct(t *testing.T) {
 				t.Fatalf("C18: %v%s", err, dc)
 			}
 		}
-		desc := fmt.Sprintf("prefix:%q ptr=%v value %+v", tag, ptr, v)
+		desc := fmt.Sprintf("prefix:%q ptr=%v private-member-first=%v value %+v", tag, ptr, privateFirst, v)
 		if out.Panic != nil {
 			t.Fatalf("C18: panic %v\n%s", out.Panic, desc)
 		}
